@@ -296,6 +296,7 @@ fn trace_under_break(lines: &[String], replies: &[String], name: &str, acc: &mut
     };
     // tracing switched on only at the breakpoint (by the field, by the TRACE command): from
     // there on the records are those of the run traced from its start
+    let mismatch: std::cell::Cell<Option<String>> = std::cell::Cell::new(None);
     let late = |break_at: Option<usize>, how: u8| -> (Vec<Vec<u64>>, Vec<Ev>) {
         let mut s = Sess::new();
         s.it.enable_tracing = break_at.is_none();
@@ -329,7 +330,30 @@ fn trace_under_break(lines: &[String], replies: &[String], name: &str, acc: &mut
                     let _ = s.apply(&Ev::Line("TRACE".into()));
                     hist.push(Ev::Line("TRACE".into()));
                 }
-                ev = Ev::Line("CONT".into());
+                // absolute clause: the statement CONT resumes with is on the line the breakpoint
+                // names, and its trace record says so (whatever was or was not traced before)
+                let at = s.it.verif_snapshot().breakpoint.map(|b| b.0);
+                s.recs.clear();
+                let r = s.apply(&Ev::Line("CONT".into()));
+                hist.push(Ev::Line("CONT".into()));
+                let first = s.recs.iter().find_map(|r| if let Rec::Trace(l) = r { Some(*l) } else { None });
+                per_call.push(s.recs.iter().filter_map(|r| if let Rec::Trace(l) = r { Some(*l) } else { None }).collect());
+                if at.is_some() && first != at {
+                    per_call.push(vec![u64::MAX]); // marks the run as wrong for the caller
+                    mismatch.set(Some(format!("CONT resumed on line {:?} but the first trace record names {:?}", at, first)));
+                }
+                if r != CallResult::Ok {
+                    break;
+                }
+                k += 1;
+                ev = match s.state() {
+                    abasic_core::InterpreterState::Running => Ev::Cont,
+                    abasic_core::InterpreterState::AwaitingInput => match rp.next() {
+                        Some(x) => Ev::Input(x.clone()),
+                        None => break,
+                    },
+                    _ => break,
+                };
                 continue;
             }
             ev = match s.state() {
@@ -351,6 +375,17 @@ fn trace_under_break(lines: &[String], replies: &[String], name: &str, acc: &mut
             }
             acc.runs += 1;
             let (got, hist) = late(Some(k), how);
+            if let Some(m) = mismatch.take() {
+                acc.violating += 1;
+                if acc.viol.len() < 20 {
+                    acc.viol.push(Violation {
+                        signature: format!("trace switched on at a breakpoint does not name the line execution resumes on [{}]", name),
+                        detail: format!("break at boundary {}, tracing switched on ({}): {}", k, if how == 0 { "field" } else { "TRACE command" }, m),
+                        case: case_history(&hist, false, how == 0),
+                    });
+                }
+                return;
+            }
             // (immediate repeats collapsed, as the property reads traces: re-executing a pending
             // INPUT after CONT names its line once more)
             let want: Vec<u64> = collapse(&full[k..].iter().flatten().copied().collect::<Vec<_>>());
